@@ -232,9 +232,12 @@ func CheckC11(c *Ctx) {
 		idxOK := false
 		ast.Inspect(rd.Decl.Body, func(n ast.Node) bool {
 			if ix, ok := n.(*ast.IndexExpr); ok {
-				if id, ok := ix.X.(*ast.Ident); ok && id.Name == "record" {
-					if sel, ok := ix.Index.(*ast.SelectorExpr); ok && sel.Sel.Name == "ColumnIndex" {
-						idxOK = true
+				// a []string (the decoded record, whatever it is called) indexed by a column's ColumnIndex
+				if t := info.TypeOf(ix.X); t != nil {
+					if sl, ok := t.Underlying().(*types.Slice); ok && types.Identical(sl.Elem(), types.Typ[types.String]) {
+						if sel, ok := ix.Index.(*ast.SelectorExpr); ok && sel.Sel.Name == "ColumnIndex" {
+							idxOK = true
+						}
 					}
 				}
 			}
@@ -258,9 +261,12 @@ func CheckC11(c *Ctx) {
 			hm := false
 			ast.Inspect(upd.Decl.Body, func(n ast.Node) bool {
 				if ix, ok := n.(*ast.IndexExpr); ok {
-					if id, ok := ix.X.(*ast.Ident); ok && id.Name == "headerMap" {
-						if sel, ok := ix.Index.(*ast.SelectorExpr); ok && sel.Sel.Name == "Header" {
-							hm = true
+					// a map[string]int (header name -> position, whatever it is called) looked up by a column's Header
+					if t := info.TypeOf(ix.X); t != nil {
+						if mp, ok := t.Underlying().(*types.Map); ok && types.Identical(mp.Key(), types.Typ[types.String]) {
+							if sel, ok := ix.Index.(*ast.SelectorExpr); ok && sel.Sel.Name == "Header" {
+								hm = true
+							}
 						}
 					}
 				}
